@@ -213,4 +213,38 @@ def loadOps (c : Cfg) (d : Disk) : List FsOp := if c.loadCleansTemp then rmTempO
 def recover (c : Cfg) (d : Disk) : Index :=
   (mainIndex c d).getD []
 
+/-! ### A chronicler session as a fold over acts -/
+
+inductive Act where
+  | w (items : List (Op × Nat))   -- `Write(batch)`: entries with their `Entry.Size()`
+  | sync                          -- `Sync()` (what fileWriterHandler calls after every Write)
+  | close                         -- `Close()`
+  deriving Repr
+
+structure Run where
+  cs : CSt
+  d : Disk := {}
+  ops : List FsOp := []
+
+def Run.step (c : Cfg) (mk : Mk) (r : Run) : Act → Run
+  | .w items =>
+    let (cs', o) := cWrite c mk r.d r.cs items
+    { cs := cs', d := r.d.applyAll o, ops := r.ops ++ o }
+  | .sync =>
+    let (cs', o) := cSync c mk r.cs
+    { cs := cs', d := r.d.applyAll o, ops := r.ops ++ o }
+  | .close =>
+    let (cs', o) := cClose c mk r.cs
+    { cs := cs', d := r.d.applyAll o, ops := r.ops ++ o }
+
+/-- a fresh chronicler on an empty directory, driven through `acts` -/
+def runActs (c : Cfg) (mk : Mk) (nl bs : Nat) (acts : List Act) : Run :=
+  acts.foldl (Run.step c mk) { cs := { w := none, nlName := nl, bs := bs } }
+
+/-- the entries handed to `Write`, in order -/
+def written : List Act → List Op
+  | [] => []
+  | .w items :: r => items.map (·.1) ++ written r
+  | _ :: r => written r
+
 end Hv.Storage
